@@ -26,7 +26,7 @@ Qed.
 
 Lemma get_item_seq_no_panic v item : get_item_seq v item <> RErr ErrPanic.
 Proof.
-  unfold get_item_seq. destruct v; try discriminate.
+  unfold get_item_seq. destruct v; try discriminate; try (destruct item; discriminate).
   - destruct (resolve_index item (Z.of_nat (length s))) as [[i|]|e] eqn:E; cbn [res_bind]; try discriminate.
     + pose proof (resolve_index_range _ _ _ i E eq_refl) as Hr.
       destruct (index_usize s i) eqn:Ei; [discriminate|]. exfalso. exact (index_usize_in_range s i Hr Ei).
